@@ -371,6 +371,42 @@ theorem fstore_get_run (s : KState τ σ) (r : ResId) (e : EvId) (hk : (s.res r)
   | none => rfl
   | some x => simp [finish, runEff, applyEff, takeOut, hk, resObj]
 
+/-! ## the put guards are `canPut` -/
+
+theorem finish_ret {cx : Cx} {s : KState τ σ} {eff : List (KEff τ)} {ret : Bool} {p : KState τ σ × Bool}
+    (h : finish cx s eff ret = some p) : ret = p.2 := by
+  unfold finish at h
+  cases hr : runEff cx eff s with
+  | none => rw [hr] at h; cases h
+  | some s' => rw [hr] at h; simp only [Option.map_some, Option.some.injEq] at h; rw [← h]
+
+theorem doPut_snd (s : KState τ σ) (r : ResId) (e : EvId) : (doPut s r e).2 = canPut (prePut s r e) r e := by
+  unfold doPut
+  split
+  · rename_i h; rw [h]
+  · rename_i h; simpa using h
+
+theorem container_put_guard (s : KState τ σ) (r : ResId) (e : EvId) (hk : (s.res r).kind = .container) :
+    (Gen.Container.do_put (contObj (τ := τ) (s.res r)) (reqOf s e).amount).ret = canPut s r e := by
+  have h := container_put_run s r e hk
+  have hp : prePut s r e = s := by unfold prePut; rw [hk]; rfl
+  simp only [runContainerPut] at h
+  rw [finish_ret h, doPut_snd, hp]
+
+theorem store_put_guard (s : KState τ σ) (r : ResId) (e : EvId) (hk : (s.res r).kind = .store ∨ (s.res r).kind = .fstore) :
+    (Gen.Store.do_put (resObj (τ := τ) (s.res r)) (s.res r).items.length).ret = canPut s r e := by
+  have h := store_put_run s r e hk
+  have hp : prePut s r e = s := by unfold prePut; rcases hk with h | h <;> rw [h] <;> rfl
+  simp only [runStorePut] at h
+  rw [finish_ret h, doPut_snd, hp]
+
+theorem pstore_put_guard (s : KState τ σ) (r : ResId) (e : EvId) (hk : (s.res r).kind = .pstore) :
+    (Gen.PriorityStore.do_put (resObj (τ := τ) (s.res r)) (s.res r).items.length).ret = canPut s r e := by
+  have h := pstore_put_run s r e hk
+  have hp : prePut s r e = s := by unfold prePut; rw [hk]; rfl
+  simp only [runPStorePut] at h
+  rw [finish_ret h, doPut_snd, hp]
+
 /-! ## `Put.cancel` / `Get.cancel` -/
 
 theorem put_cancel_run (s : KState τ σ) (e : EvId) (r : ResId) (hk : (s.ev e).kind = .put r)
